@@ -363,7 +363,7 @@ def _mid_var(f, loop, lo, hi):
     return None, None
 
 
-@rule("R-BISECT", 12, "prefix-range boundary searches cover the whole interval the main binary search left open: with main interval [L,R] and "
+@rule("R-BISECT", 8, "prefix-range boundary searches cover the whole interval the main binary search left open: with main interval [L,R] and "
                      "pivot c, the left-boundary search runs over [L, c-1] (closed, steps mid+1 / mid-1) and the right-boundary search over "
                      "(c, R+1) (open sentinel R+1, steps mid / mid); a smaller sentinel silently drops the last matching element")
 def r_bisect(db, rep):
